@@ -600,3 +600,63 @@ Theorem history_creation_not_refused srt ops s r : sorter_ok srt -> Forall op_ok
 Proof.
   intros Hs Ho E. exact (create_total srt r s (run_hist_inv srt Hs ops fresh s Ho hist_inv_fresh E)).
 Qed.
+
+(* ---------------------------------------------------------------- a writer stopped inside its critical section (op 12) *)
+Lemma waited_eq {A} (e a : Z) (k : A) : waited e a k = k.
+Proof. unfold waited. destruct (e =? 0); [reflexivity|]. destruct (a =? 0); reflexivity. Qed.
+
+Lemma stall_same v s : bbusy (stall v s) = v /\ btbl (stall v s) = btbl s /\ bfile (stall v s) = bfile s /\
+  bsn (stall v s) = bsn s /\ bsc (stall v s) = bsc s /\ tnames (stall v s) = tnames s /\ snames (stall v s) = snames s /\
+  cnames (stall v s) = cnames s /\ ctitles (stall v s) = ctitles s.
+Proof. repeat split; reflexivity. Qed.
+
+Theorem stalled_flag_independence v after s :
+  (forall q, st_get_bid after (stall v s) q = get_bid (snames s) (bsn s) q) /\
+  (forall q asc, st_find_by_name after (stall v s) q asc = find_by_name (snames s) q asc) /\
+  (forall q asc, st_autocomplete after (stall v s) q asc = autocomplete (snames s) q asc) /\
+  (forall cls q asc, st_find_by_class after (stall v s) cls q asc = find_by_class (ctitles s) (cnames s) cls q asc) /\
+  (forall k asc, st_page_walk after (stall v s) k asc = page_walk (snames s) k asc) /\
+  (forall k asc, st_page_walk_class after (stall v s) k asc = page_walk_class (ctitles s) (cnames s) k asc).
+Proof.
+  unfold st_get_bid, st_find_by_name, st_autocomplete, st_find_by_class, st_page_walk, st_page_walk_class.
+  repeat split; intros; rewrite waited_eq; reflexivity.
+Qed.
+
+Theorem stalled_lookups srt ops s v after : sorter_ok srt -> Forall op_ok ops -> run_hist srt ops fresh = Some s ->
+  let s' := stall v s in
+  bbusy s' = v /\ btbl s' = firstn (Z.to_nat MAXB) (file_recs s') /\
+  (forall q, bytes_ok q = true -> exists b, st_get_bid after s' q = Ok b /\
+     ((1 <= b <= lenZ (tnames s') /\ cstrcasecmp (boardid q) (boardid (nth (Z.to_nat (b - 1)) (tnames s') [])) = 0) \/
+      (b = 0 /\ forall j, 0 <= j < lenZ (tnames s') -> cstrcasecmp (boardid q) (boardid (nth (Z.to_nat j) (tnames s') [])) <> 0))) /\
+  (forall q asc, bytes_ok q = true -> exists r, st_find_by_name after s' q asc = Ok r /\
+     ((1 <= r <= lenZ (snames s') /\ cmp_name (snames s') q (r - 1) = 0) \/ scan (cmp_name (snames s') q) (lenZ (snames s')) asc = Ok r)) /\
+  Permutation (tnames s') (snames s') /\ sorted_by less_name (snames s') = true.
+Proof.
+  intros Hs Ho E s'. destruct (history_lookups srt ops s Hs Ho E) as (_ & H2 & H3 & H4 & H5 & H6).
+  destruct (stalled_flag_independence v after s) as (G1 & G2 & _).
+  subst s'. repeat split; try assumption.
+  - intros q Hq. rewrite G1. exact (H3 q Hq).
+  - intros q asc Hq. rewrite G2. exact (H4 q asc Hq).
+Qed.
+
+Theorem stalled_lookups_class srt ops s v after : sorter_ok srt -> Forall op_ok ops -> run_hist srt ops fresh = Some s ->
+  Forall (fun r => nth 4 (rec_title5 r) 0 = 32 \/ nth 4 (rec_title5 r) 0 = 0) (btbl s) ->
+  let s' := stall v s in
+  forall cls q asc, bytes_ok cls = true -> bytes_ok q = true ->
+  exists r, st_find_by_class after s' cls q asc = Ok r /\
+    ((1 <= r <= lenZ (cnames s') /\ cmp_class (ctitles s') (cnames s') cls q (r - 1) = 0) \/
+     scan (cmp_class (ctitles s') (cnames s') cls q) (lenZ (cnames s')) asc = Ok r).
+Proof.
+  intros Hs Ho E Ht s' cls q asc Hc Hq. subst s'.
+  destruct (stalled_flag_independence v after s) as (_ & _ & _ & G4 & _). rewrite G4.
+  exact (history_lookups_class srt ops s Hs Ho E Ht cls q asc Hc Hq).
+Qed.
+
+(* not vacuous: a table of two boards loaded from a file, then a writer stopped with the flag at 1, the flag still 1 after the wait:
+   "ab" in another letter case is board 2, found at position 1 of the by-name index; "zz" is no board *)
+Example stalled_example :
+  let rec_ n := mkrec (fixlen 13 n ++ [65; 65; 65; 65; 32]) in
+  exists s, run_hist isorter [OInstall (rec_ [122] ++ rec_ [97; 98])] fresh = Some s /\
+    bbusy (stall 1 s) = 1 /\ st_get_bid 1 (stall 1 s) [65; 66] = Ok 2 /\ st_find_by_name 1 (stall 1 s) [65; 66] true = Ok 1 /\
+    st_get_bid 1 (stall 1 s) [122; 122] = Ok 0.
+Proof. eexists. split; [reflexivity|]. vm_compute. repeat split; reflexivity. Qed.
